@@ -1,6 +1,6 @@
 PROP = dict(
     engine="chain", harness="chain", driver="drv_chain",
-    props=["Hostd.Props.C06", "Hostd.Gen.ChainSqlTie"],
+    props=["Hostd.Props.C06", "Hostd.Props.C06Acts", "Hostd.Gen.ChainSqlTie"],
     pregen=[["go", "run", "./sqlwhere", "{repo}", "{lean}/Hostd/Gen/ChainSql.lean"]],
     shard_extra=[dict(level="store"), dict(level="mgr")],
     driver_args=["c06/"],
